@@ -59,6 +59,12 @@ class Run:
             n = sum(1 for v2, e2 in listed if e2.get("id") == e.get("id"))
             print("KNOWN-FINDING: property=%s %s [%s; %d obligation(s), e.g. %s]" % (self.prop, e.get("what"), e.get("id"), n, v["key"]))
         rdir = os.path.join(tc.VERIF, "replay", self.prop)
+        if os.path.isdir(rdir):      # replay files describe the latest run only
+            for old in os.listdir(rdir):
+                try:
+                    os.remove(os.path.join(rdir, old))
+                except OSError:
+                    pass
         for v in unlisted:
             os.makedirs(rdir, exist_ok=True)
             path = os.path.join(rdir, _safe(v["key"]) + ".json")
@@ -75,9 +81,10 @@ class Run:
         ev = {"property_id": self.prop, "tier": self.tier, "seed": self.seed, "level": self.level,
               "coverage": cov, "assumptions": self.assumptions, "wall_s": round(time.time() - self.t0, 2),
               "violations": len(unlisted)}
-        os.makedirs(os.path.join(tc.VERIF, "evidence"), exist_ok=True)
-        with open(os.path.join(tc.VERIF, "evidence", self.prop + ".json"), "w") as f:
-            json.dump(ev, f, indent=1, default=str)
+        if not os.environ.get("VERIF_NO_EVIDENCE"):     # set only by tools/seeded.py (runs against scratch copies)
+            os.makedirs(os.path.join(tc.VERIF, "evidence"), exist_ok=True)
+            with open(os.path.join(tc.VERIF, "evidence", self.prop + ".json"), "w") as f:
+                json.dump(ev, f, indent=1, default=str)
         for n in self.notes:
             print(n)
         if self.broken:
